@@ -4,7 +4,10 @@ import MuscleModel.Reflector.TravProofsMain
 # Lemmas for property C05, part 4: the skip-to-next-session callback of `PassMessageCallbackAux`
 
 With the callback `fun _ _ _ => (true, 1)` (deliver, then return `NODE_DEPTH_HOSTNAME`) and `rootDepth = 0`:
-below a session node (depth ≥ 2) a traversal records at most one visit and then unwinds to the host level.
+below a session node (depth ≥ 2) a traversal records at most one visit and then unwinds to the host level; for a
+session node itself (child of a host node) the loop of `CheckChildForTraversal` records at most one visit — the
+session node or one node below it — by the rule repaired for finding F27 (a returned depth above the child's level
+sets the other flag too); at the root level nothing is terminal once every pattern has ≥ 2 clauses.
 -/
 
 namespace Muscle.Reflector
@@ -13,44 +16,73 @@ open Muscle
 /-- the callback `route` uses: record, then skip to the next session -/
 def cbSkip : Visit → Nat → Node → Bool × Int := fun _ _ _ => (true, 1)
 
-/-! ## depth ≥ 2: at most one visit, then unwind -/
+/-! ## children at depth ≥ 2 (`depth` ≥ 1): at most one visit; below a session node, then unwind -/
 
 /-- outcome of a (sub)traversal started at depth ≥ 2 -/
 def Deep (names : Visit) (depth : Nat) (r : List Visit × Int) : Prop :=
   r = ([], (depth : Int)) ∨ ∃ v, r = ([v], 1) ∧ names <+: v ∧ names.length < v.length
 
-/-- loop state of `checkEntries` at depth ≥ 2 -/
-def DeepSt (cn : Visit) (st : CState) : Prop :=
-  (st.visits = [] ∧ st.abort = none) ∨ ∃ v, st.visits = [v] ∧ cn <+: v ∧ st.abort = some 1
+/-- what the loop leaves in `abort` after its single record: unwind to depth 1 from below a session node
+    (depth ≥ 2); at the host level (depth 1) the traversal goes on with the next session (no abort, loop done) -/
+def skipAbort (depth : Nat) : Option Int := if 2 ≤ depth then some 1 else none
+
+/-- loop state of `checkEntries` for a child at depth ≥ 2 (`depth` ≥ 1): nothing recorded yet, or exactly one
+    visit recorded and the loop is over -/
+def DeepSt (depth : Nat) (cn : Visit) (st : CState) : Prop :=
+  (st.visits = [] ∧ st.abort = none) ∨
+  ∃ v, st.visits = [v] ∧ cn <+: v ∧ st.abort = skipAbort depth ∧ (st.done || st.abort.isSome) = true
 
 theorem stepG_deep (ctx : TCtx) (rec : Rec) (child : Node) (cn : Visit) (depth : Nat) (hit : Bool) (e : Entry)
-    (hcb : ctx.cb = cbSkip) (hd : 2 ≤ depth) (hrec : Deep cn (depth+1) (rec child cn (depth+1)))
-    (st : CState) (h : st.visits = [] ∧ st.abort = none) : DeepSt cn (stepG ctx rec child cn depth hit e st) := by
+    (hcb : ctx.cb = cbSkip) (hd : 1 ≤ depth) (hrec : Deep cn (depth+1) (rec child cn (depth+1)))
+    (st : CState) (h : st.visits = [] ∧ st.abort = none) : DeepSt depth cn (stepG ctx rec child cn depth hit e st) := by
   obtain ⟨hv, ha⟩ := h
-  have h1 : ((1 : Int) < (depth : Int) + 1 - 1) := by omega
   have h2 : ¬ (((depth + 1 : Nat) : Int) < (depth : Int) + 1 - 1) := by omega
-  unfold stepG
-  simp only [hcb, cbSkip, h1, if_true]
-  split
-  · exact Or.inl ⟨hv, ha⟩
-  · split
+  by_cases hd2 : 2 ≤ depth
+  · -- below a session node: the callback's answer 1 unwinds
+    have h1 : ((1 : Int) < (depth : Int) + 1 - 1) := by omega
+    have hsa : skipAbort depth = some 1 := by simp [skipAbort, hd2]
+    unfold stepG
+    simp only [hcb, cbSkip, h1, if_true]
+    split
+    · exact Or.inl ⟨hv, ha⟩
     · split
-      · exact Or.inl ⟨hv, ha⟩
       · split
-        · exact Or.inr ⟨cn, by simp [hv], List.prefix_refl _, rfl⟩
         · exact Or.inl ⟨hv, ha⟩
+        · split
+          · exact Or.inr ⟨cn, by simp [hv], List.prefix_refl _, hsa.symm, by simp⟩
+          · exact Or.inl ⟨hv, ha⟩
+      · split
+        · exact Or.inl ⟨hv, ha⟩
+        · rcases hrec with hr | ⟨v, hr, hp, _⟩
+          · rw [hr]; simp only [h2, if_false]
+            exact Or.inl ⟨by simp [hv], ha⟩
+          · rw [hr]; simp only [h1, if_true]
+            exact Or.inr ⟨v, by simp [hv], hp, hsa.symm, by simp⟩
+  · -- the child is a session node: no unwinding, but the repaired rule ends the loop after the single record
+    obtain rfl : depth = 1 := by omega
+    have hsa : skipAbort 1 = none := by simp [skipAbort]
+    unfold stepG
+    simp only [hcb, cbSkip]
+    split
+    · exact Or.inl ⟨hv, ha⟩
     · split
-      · exact Or.inl ⟨hv, ha⟩
-      · rcases hrec with hr | ⟨v, hr, hp, _⟩
-        · rw [hr]; simp only [h2, if_false]
-          exact Or.inl ⟨by simp [hv], ha⟩
-        · rw [hr]; simp only [h1, if_true]
-          exact Or.inr ⟨v, by simp [hv], hp, rfl⟩
+      · split
+        · exact Or.inl ⟨hv, ha⟩
+        · split
+          · exact Or.inr ⟨cn, by simp [hv], List.prefix_refl _, by simp [hsa, ha], by simp⟩
+          · exact Or.inl ⟨hv, ha⟩
+      · split
+        · exact Or.inl ⟨hv, ha⟩
+        · rcases hrec with hr | ⟨v, hr, hp, _⟩
+          · rw [hr]; simp
+            exact Or.inl ⟨hv, ha⟩
+          · rw [hr]; simp
+            exact Or.inr ⟨v, by simp [hv], hp, by simp [hsa, ha], by simp⟩
 
 theorem checkEntries_deep (ctx : TCtx) (rec : Rec) (child : Node) (cn : Visit) (depth : Nat) (known : Option Nat)
-    (hcb : ctx.cb = cbSkip) (hd : 2 ≤ depth) (hrec : Deep cn (depth+1) (rec child cn (depth+1))) :
-    ∀ (es : List Entry) (idx : Nat) (st : CState), DeepSt cn st →
-      DeepSt cn (checkEntries ctx rec child cn depth known es idx st) := by
+    (hcb : ctx.cb = cbSkip) (hd : 1 ≤ depth) (hrec : Deep cn (depth+1) (rec child cn (depth+1))) :
+    ∀ (es : List Entry) (idx : Nat) (st : CState), DeepSt depth cn st →
+      DeepSt depth cn (checkEntries ctx rec child cn depth known es idx st) := by
   intro es
   induction es with
   | nil => intro idx st h; exact h
@@ -61,21 +93,29 @@ theorem checkEntries_deep (ctx : TCtx) (rec : Rec) (child : Node) (cn : Visit) (
     · exact h
     · rename_i hs
       apply ih
-      rcases h with h | ⟨v, _, _, ha⟩
+      rcases h with h | ⟨v, _, _, _, hstop⟩
       · exact stepG_deep ctx rec child cn depth _ e hcb hd hrec st h
-      · simp [ha] at hs
+      · exact absurd hstop hs
 
-/-- one child at depth ≥ 2: nothing and no abort, or exactly one visit and unwind to depth 1 -/
+/-- one child at depth ≥ 2 (`depth` ≥ 1): nothing and no abort, or exactly one visit -/
+theorem checkChild_deep1 (ctx : TCtx) (rec : Rec) (k : Node) (names : Visit) (depth : Nat) (known : Option Nat)
+    (hcb : ctx.cb = cbSkip) (hd : 1 ≤ depth) (hrec : ∀ k n, Deep n (depth+1) (rec k n (depth+1))) :
+    checkChild ctx rec k names depth known = ([], none) ∨
+    ∃ v, checkChild ctx rec k names depth known = ([v], skipAbort depth) ∧ (names ++ [k.name]) <+: v := by
+  have := checkEntries_deep ctx rec k (names ++ [k.name]) depth known hcb hd (hrec _ _)
+    (activeEntries ctx.pm (depth - ctx.rootDepth)) 0 {} (Or.inl ⟨rfl, rfl⟩)
+  unfold checkChild
+  rcases this with ⟨h1, h2⟩ | ⟨v, h1, h2, h3, _⟩
+  · left; simp [h1, h2]
+  · right; exact ⟨v, by simp [h1, h3], h2⟩
+
+/-- one child at depth ≥ 3: nothing and no abort, or exactly one visit and unwind to depth 1 -/
 theorem checkChild_deep (ctx : TCtx) (rec : Rec) (k : Node) (names : Visit) (depth : Nat) (known : Option Nat)
     (hcb : ctx.cb = cbSkip) (hd : 2 ≤ depth) (hrec : ∀ k n, Deep n (depth+1) (rec k n (depth+1))) :
     checkChild ctx rec k names depth known = ([], none) ∨
     ∃ v, checkChild ctx rec k names depth known = ([v], some 1) ∧ (names ++ [k.name]) <+: v := by
-  have := checkEntries_deep ctx rec k (names ++ [k.name]) depth known hcb hd (hrec _ _)
-    (activeEntries ctx.pm (depth - ctx.rootDepth)) 0 {} (Or.inl ⟨rfl, rfl⟩)
-  unfold checkChild
-  rcases this with ⟨h1, h2⟩ | ⟨v, h1, h2, h3⟩
-  · left; simp [h1, h2]
-  · right; exact ⟨v, by simp [h1, h3], h2⟩
+  have := checkChild_deep1 ctx rec k names depth known hcb (by omega) hrec
+  simpa [skipAbort, hd] using this
 
 theorem snoc_prefix_lt {names v : Visit} {x : Bytes} (h : (names ++ [x]) <+: v) : names <+: v ∧ names.length < v.length := by
   refine ⟨(List.prefix_append _ _).trans h, ?_⟩
@@ -151,7 +191,8 @@ theorem travAux_deep (ctx : TCtx) (hcb : ctx.cb = cbSkip) :
     · exact travLookups_deep ctx _ node names depth hcb hd hrec _ _ _
 
 
-/-! ## levels where no active entry is terminal (host and session level when every pattern has ≥ 3 clauses) -/
+/-! ## levels where no active entry is terminal and the recursive call returns at least the child's depth
+    (the root level when every pattern has ≥ 2 clauses) -/
 
 /-- loop state of `checkEntries` at such a level; `R` = what the recursive call records -/
 def NoTermSt (R : List Visit) (st : CState) : Prop :=
@@ -160,13 +201,15 @@ def NoTermSt (R : List Visit) (st : CState) : Prop :=
 
 theorem stepG_noterm (ctx : TCtx) (rec : Rec) (child : Node) (cn : Visit) (depth : Nat) (hit : Bool) (e : Entry)
     (ht : ¬ (depth + 1 = ctx.rootDepth + e.clauses.length))
-    (hnr : ¬ ((rec child cn (depth+1)).2 < (depth : Int) + 1 - 1))
+    (hnr : ¬ ((rec child cn (depth+1)).2 < (depth : Int) + 1))
     (st : CState) (h : NoTermSt (rec child cn (depth+1)).1 st) :
     NoTermSt (rec child cn (depth+1)).1 (stepG ctx rec child cn depth hit e st) ∧
     (stepG ctx rec child cn depth hit e st).recursed = (st.recursed || hit) := by
   obtain ⟨ha, hm, hdn, hr⟩ := h
+  have hnr0 : ¬ ((rec child cn (depth+1)).2 < (depth : Int) + 1 - 1) := by omega
+  have hdec : decide ((rec child cn (depth+1)).2 < (depth : Int) + 1) = false := by simpa using hnr
   unfold stepG
-  simp only [ht, if_false, hnr]
+  simp only [ht, if_false, hnr0, hdec, Bool.or_false]
   split
   · rename_i hh
     have : hit = false := by simpa using hh
@@ -182,7 +225,7 @@ theorem stepG_noterm (ctx : TCtx) (rec : Rec) (child : Node) (cn : Visit) (depth
       · exact absurd hr hrf
 
 theorem checkEntries_noterm (ctx : TCtx) (rec : Rec) (child : Node) (cn : Visit) (depth : Nat) (known : Option Nat)
-    (hnr : ¬ ((rec child cn (depth+1)).2 < (depth : Int) + 1 - 1)) :
+    (hnr : ¬ ((rec child cn (depth+1)).2 < (depth : Int) + 1)) :
     ∀ (es : List Entry), (∀ e ∈ es, ¬ (depth + 1 = ctx.rootDepth + e.clauses.length)) →
       ∀ (idx : Nat) (st : CState), NoTermSt (rec child cn (depth+1)).1 st →
         NoTermSt (rec child cn (depth+1)).1 (checkEntries ctx rec child cn depth known es idx st) := by
@@ -200,7 +243,7 @@ theorem checkEntries_noterm (ctx : TCtx) (rec : Rec) (child : Node) (cn : Visit)
 /-- one child at a level without terminal entries: no abort; nothing, or exactly what the recursive call records -/
 theorem checkChild_noterm (ctx : TCtx) (rec : Rec) (k : Node) (names : Visit) (depth : Nat) (known : Option Nat)
     (ht : ∀ e ∈ activeEntries ctx.pm (depth - ctx.rootDepth), ¬ (depth + 1 = ctx.rootDepth + e.clauses.length))
-    (hnr : ¬ ((rec k (names ++ [k.name]) (depth+1)).2 < (depth : Int) + 1 - 1)) :
+    (hnr : ¬ ((rec k (names ++ [k.name]) (depth+1)).2 < (depth : Int) + 1)) :
     (checkChild ctx rec k names depth known).2 = none ∧
     ((checkChild ctx rec k names depth known).1 = [] ∨
      (checkChild ctx rec k names depth known).1 = (rec k (names ++ [k.name]) (depth+1)).1) := by
@@ -259,43 +302,38 @@ theorem minClauses_active {pm : PM} {n rel : Nat} {e : Entry} (h : pmMinClauses 
   simp only [pmMinClauses, List.all_eq_true, decide_eq_true_eq] at h
   exact h g hg e heg
 
+theorem pmMinClauses_mono {pm : PM} {m n : Nat} (hmn : m ≤ n) (h : pmMinClauses n pm = true) :
+    pmMinClauses m pm = true := by
+  simp only [pmMinClauses, List.all_eq_true, decide_eq_true_eq] at h ⊢
+  intro g hg e he; exact Nat.le_trans hmn (h g hg e he)
+
 theorem take2_of_prefix {a b : Bytes} {x : Visit} (h : [a, b] <+: x) : x.take 2 = [a, b] := by
   obtain ⟨t, rfl⟩ := h; simp
 
 /-! ## host level (depth 1) -/
 
-theorem host_checkChild (ctx : TCtx) (hcb : ctx.cb = cbSkip) (hrd : ctx.rootDepth = 0)
-    (hmin : pmMinClauses 3 ctx.pm = true) (fuel : Nat) (names : Visit) (k : Node) (known : Option Nat) :
+/-- a session node as child of a host node: no abort; nothing, or exactly one visit (the session node itself or
+    one node below it).  No hypothesis on the patterns: this is the repaired rule of `CheckChildForTraversal`. -/
+theorem host_checkChild (ctx : TCtx) (hcb : ctx.cb = cbSkip) (fuel : Nat) (names : Visit) (k : Node) (known : Option Nat) :
     (checkChild ctx (travAux ctx fuel) k names 1 known).2 = none ∧
     ((checkChild ctx (travAux ctx fuel) k names 1 known).1 = [] ∨
      ∃ v, (checkChild ctx (travAux ctx fuel) k names 1 known).1 = [v] ∧ (names ++ [k.name]) <+: v) := by
-  have hdeep := travAux_deep ctx hcb fuel k (names ++ [k.name]) 2 (Nat.le_refl _)
-  have hnr : ¬ ((travAux ctx fuel k (names ++ [k.name]) (1+1)).2 < ((1 : Nat) : Int) + 1 - 1) := by
-    rcases hdeep with h | ⟨v, h, _⟩ <;> (rw [h]; simp)
-  have ht : ∀ e ∈ activeEntries ctx.pm (1 - ctx.rootDepth), ¬ (1 + 1 = ctx.rootDepth + e.clauses.length) := by
-    intro e he; have := minClauses_active hmin he; omega
-  obtain ⟨h1, h2⟩ := checkChild_noterm ctx (travAux ctx fuel) k names 1 known ht hnr
-  refine ⟨h1, ?_⟩
-  rcases h2 with h2 | h2
-  · left; exact h2
-  · rcases hdeep with h | ⟨v, h, hp, hl⟩
-    · left; rw [h2, h]
-    · right
-      refine ⟨v, by rw [h2, h], ?_⟩
-      exact hp
+  have hrec : ∀ k n, Deep n (1+1) (travAux ctx fuel k n (1+1)) := fun k n => travAux_deep ctx hcb fuel k n 2 (Nat.le_refl _)
+  rcases checkChild_deep1 ctx (travAux ctx fuel) k names 1 known hcb (Nat.le_refl _) hrec with h | ⟨v, h, hp⟩
+  · rw [h]; exact ⟨rfl, Or.inl rfl⟩
+  · rw [h]; exact ⟨by simp [skipAbort], Or.inr ⟨v, rfl, hp⟩⟩
 
-theorem travAux_host_snd (ctx : TCtx) (hcb : ctx.cb = cbSkip) (hrd : ctx.rootDepth = 0)
-    (hmin : pmMinClauses 3 ctx.pm = true) (fuel : Nat) (h : Node) (names : Visit) :
+theorem travAux_host_snd (ctx : TCtx) (hcb : ctx.cb = cbSkip) (fuel : Nat) (h : Node) (names : Visit) :
     (travAux ctx fuel h names 1).2 = 1 := by
   cases fuel with
   | zero => rfl
   | succ fuel =>
     rw [travAux]
-    exact travLevel_snd_gen ctx _ h names 1 (fun k known => (host_checkChild ctx hcb hrd hmin fuel names k known).1)
+    exact travLevel_snd_gen ctx _ h names 1 (fun k known => (host_checkChild ctx hcb fuel names k known).1)
 
 /-- below one host node: at most one visit per session node -/
-theorem travAux_host (ctx : TCtx) (hcb : ctx.cb = cbSkip) (hrd : ctx.rootDepth = 0)
-    (hmin : pmMinClauses 3 ctx.pm = true) (fuel : Nat) (h : Node) (hn : Bytes) (hk : kidsNodup fuel h = true) :
+theorem travAux_host (ctx : TCtx) (hcb : ctx.cb = cbSkip) (fuel : Nat) (h : Node) (hn : Bytes)
+    (hk : kidsNodup fuel h = true) :
     ((travAux ctx fuel h [hn] 1).1.map (List.take 2)).Nodup ∧
     ∀ x ∈ (travAux ctx fuel h [hn] 1).1, ∃ s ∈ h.kids, [hn, s.name] <+: x := by
   cases fuel with
@@ -303,7 +341,7 @@ theorem travAux_host (ctx : TCtx) (hcb : ctx.cb = cbSkip) (hrd : ctx.rootDepth =
   | succ fuel =>
     obtain ⟨hkn, _⟩ := kidsNodup_succ hk
     rw [travAux]
-    have hcc := fun k known => host_checkChild ctx hcb hrd hmin fuel [hn] k known
+    have hcc := fun k known => host_checkChild ctx hcb fuel [hn] k known
     obtain ⟨ps, hsub, hpw, heq⟩ := travLevel_shape_gen ctx (travAux ctx fuel) h [hn] 1 (fun k known => (hcc k known).1) hkn
     rw [heq]
     simp only
@@ -335,19 +373,19 @@ theorem travAux_host (ctx : TCtx) (hcb : ctx.cb = cbSkip) (hrd : ctx.rootDepth =
 /-! ## root level (depth 0) -/
 
 theorem root_checkChild (ctx : TCtx) (hcb : ctx.cb = cbSkip) (hrd : ctx.rootDepth = 0)
-    (hmin : pmMinClauses 3 ctx.pm = true) (fuel : Nat) (k : Node) (known : Option Nat) :
+    (hmin : pmMinClauses 2 ctx.pm = true) (fuel : Nat) (k : Node) (known : Option Nat) :
     (checkChild ctx (travAux ctx fuel) k [] 0 known).2 = none ∧
     ((checkChild ctx (travAux ctx fuel) k [] 0 known).1 = [] ∨
      (checkChild ctx (travAux ctx fuel) k [] 0 known).1 = (travAux ctx fuel k [k.name] 1).1) := by
-  have hnr : ¬ ((travAux ctx fuel k ([] ++ [k.name]) (0+1)).2 < ((0 : Nat) : Int) + 1 - 1) := by
-    rw [travAux_host_snd ctx hcb hrd hmin]; simp
+  have hnr : ¬ ((travAux ctx fuel k ([] ++ [k.name]) (0+1)).2 < ((0 : Nat) : Int) + 1) := by
+    rw [travAux_host_snd ctx hcb]; simp
   have ht : ∀ e ∈ activeEntries ctx.pm (0 - ctx.rootDepth), ¬ (0 + 1 = ctx.rootDepth + e.clauses.length) := by
     intro e he; have := minClauses_active hmin he; omega
   simpa using checkChild_noterm ctx (travAux ctx fuel) k [] 0 known ht hnr
 
 /-- the whole traversal: at most one visit per (host, session) pair, and every visit lies below a session node of the tree -/
 theorem travAux_root (ctx : TCtx) (hcb : ctx.cb = cbSkip) (hrd : ctx.rootDepth = 0)
-    (hmin : pmMinClauses 3 ctx.pm = true) (fuel : Nat) (node : Node) (hk : kidsNodup fuel node = true) :
+    (hmin : pmMinClauses 2 ctx.pm = true) (fuel : Nat) (node : Node) (hk : kidsNodup fuel node = true) :
     ((travAux ctx fuel node [] 0).1.map (List.take 2)).Nodup ∧
     ∀ x ∈ (travAux ctx fuel node [] 0).1, ∃ h ∈ node.kids, ∃ s ∈ h.kids, [h.name, s.name] <+: x := by
   cases fuel with
@@ -359,7 +397,7 @@ theorem travAux_root (ctx : TCtx) (hcb : ctx.cb = cbSkip) (hrd : ctx.rootDepth =
     obtain ⟨ps, hsub, hpw, heq⟩ := travLevel_shape_gen ctx (travAux ctx fuel) node [] 0 (fun k known => (hcc k known).1) hkn
     rw [heq]
     simp only
-    have hhost := fun p (hp : p ∈ ps) => travAux_host ctx hcb hrd hmin fuel p.1 p.1.name (hkk p.1 (hsub p hp))
+    have hhost := fun p (hp : p ∈ ps) => travAux_host ctx hcb fuel p.1 p.1.name (hkk p.1 (hsub p hp))
     have hmem : ∀ p ∈ ps, ∀ x ∈ (checkChild ctx (travAux ctx fuel) p.1 [] 0 p.2).1, ∃ s ∈ p.1.kids, [p.1.name, s.name] <+: x := by
       intro p hp x hx
       rcases (hcc p.1 p.2).2 with h | h
